@@ -13,10 +13,12 @@ from . import funcs
 from .sizes import _threshold_ok
 
 CAP = 64
+MACHINE_INTS = {"np.int64": 64, "np.uint64": 64, "np.int32": 32, "np.uint32": 32, "np.int16": 16, "np.int8": 8, "np.intp": 64, "np.int_": 64, "np.longlong": 64}
 
 
 class Node:
-    def __init__(self, kind, W=None, ops=(), guards=(), always_obj=False, k=None):
+    def __init__(self, kind, W=None, ops=(), guards=(), always_obj=False, k=None, forced=False):
+        self.forced = forced      # value was cast to a fixed machine type (astype(np.int64) ...): it is no longer in its operand's own carrier
         self.kind = kind          # 'code' | 'pow2' | 'num'
         self.W = W                # width Term (bits incl. sign) of the exact value
         self.ops = set(ops)       # operands whose machine carrier the value may have
@@ -37,15 +39,33 @@ def _lambda_obj(lam):
 
 
 class Widths:
-    def __init__(self, ck, rule_w, rule_p, kernel, nfrac_opt, operands, path_guards=()):
+    def __init__(self, ck, rule_w, rule_p, kernel, nfrac_opt, operands, path_guards=(), public=None):
         self.ck, self.rule_w, self.rule_p, self.k = ck, rule_w, rule_p, kernel
         self.nf = nfrac_opt
         self.operands = operands
+        self.public = public if public is not None else kernel     # findings are keyed by the public function and operand position
+        self.canon = {o: "xy"[i] if i < 2 else "op%d" % (i + 1) for i, o in enumerate(operands)}
         self.reports = []
         self.path_guards = list(path_guards)      # (substituted test, polarity, raw, stmt) of the kernel path
 
+    def _rename(self, d):
+        head, _, rest = d.partition(".")
+        if head in self.canon:
+            return self.canon[head] + ("." + rest if rest else "")
+        return d
+
     def T(self, e):
-        return mkterm(e, rename=lambda d: d).subst({("v", "n_frac"): self.nf})
+        # bits of a power of two: (2**k).bit_length() == k + 1
+        if isinstance(e, ast.Call) and isinstance(e.func, ast.Attribute) and e.func.attr == "bit_length" and not e.args:
+            b = e.func.value
+            if isinstance(b, ast.BinOp) and isinstance(b.op, ast.Pow) and isinstance(b.left, ast.Constant) and b.left.value == 2:
+                return self.T(b.right) + 1
+            if isinstance(b, ast.BinOp) and isinstance(b.op, ast.LShift) and isinstance(b.left, ast.Constant) and b.left.value == 1:
+                return self.T(b.right) + 1
+        if isinstance(e, ast.BinOp) and isinstance(e.op, (ast.Add, ast.Sub)):
+            l, r = self.T(e.left), self.T(e.right)
+            return l + r if isinstance(e.op, ast.Add) else l - r
+        return mkterm(e, rename=self._rename).subst({("v", "n_frac"): self.nf})
 
     def an(self, e):
         if isinstance(e, ast.Call):
@@ -64,18 +84,30 @@ class Widths:
                 for k in e.keywords:
                     if k.arg == "dtype" and dotted(k.value) in ("object", "np.object_"):
                         r.always_obj = True
+                    elif k.arg == "dtype" and dotted(k.value) in MACHINE_INTS and r.kind == "code" and not r.always_obj:
+                        r = self.machine_cast(r, dotted(k.value), e)
                 return r
             if isinstance(e.func, ast.Attribute) and e.func.attr == "astype" and e.args:
                 r = self.an(e.func.value)
-                if dotted(e.args[0]) in ("object", "np.object_"):
+                ty = dotted(e.args[0])
+                if ty in ("object", "np.object_"):
                     r.always_obj = True
+                elif ty in MACHINE_INTS and r.kind == "code" and not r.always_obj:
+                    r = self.machine_cast(r, ty, e)
+                elif ty not in (None,) and ty not in MACHINE_INTS and r.kind == "code":
+                    raise NotATerm("cast of raw codes to %s" % ty)
+                return r
+            if fn in MACHINE_INTS and len(e.args) == 1:
+                r = self.an(e.args[0])
+                if r.kind == "code" and not r.always_obj:
+                    r = self.machine_cast(r, fn, e)
                 return r
             if fn in ("utils.int_array", "int_array") and e.args:
                 return self.an(e.args[0])
             raise NotATerm("call %s" % src(e)[:50])
         if isinstance(e, ast.Attribute) and e.attr == "val" and dotted(e.value) in self.operands:
             o = dotted(e.value)
-            return Node("code", Term.var(o + ".n_word"), {o})
+            return Node("code", Term.var(self.canon.get(o, o) + ".n_word"), {o})
         if isinstance(e, ast.Attribute) and e.attr in ("real", "imag", "T"):
             return self.an(e.value)
         if isinstance(e, ast.Constant):
@@ -90,11 +122,12 @@ class Widths:
                 for a, b in ((l, r), (r, l)):
                     if a.kind == "code" and b.kind == "pow2":
                         n = Node("code", a.W + b.k, a.ops, a.guards + b.guards, a.always_obj or b.always_obj)
-                        role = "align(%s)" % ",".join(sorted(a.ops))
+                        n.forced = a.forced
+                        role = "align(%s)" % ",".join(sorted(self.canon.get(o, o) for o in a.ops))
                         self.check_width(n, role, e)
                         return n
                 if l.kind == "code" and r.kind == "code":
-                    n = Node("code", l.W + r.W, l.ops | r.ops, l.guards + r.guards, l.always_obj or r.always_obj)
+                    n = Node("code", l.W + r.W, l.ops | r.ops, l.guards + r.guards, l.always_obj or r.always_obj, forced=l.forced or r.forced)
                     self.check_width(n, "product", e)
                     self.check_mix(l, r, n, "product", e)
                     return n
@@ -103,13 +136,39 @@ class Widths:
                 if r.kind == "code" and l.kind == "num":
                     return r
             if isinstance(e.op, (ast.Add, ast.Sub)) and l.kind == "code" and r.kind == "code":
-                n = Node("code", tmax(l.W, r.W) + 1, l.ops | r.ops, l.guards + r.guards, l.always_obj or r.always_obj)
+                n = Node("code", tmax(l.W, r.W) + 1, l.ops | r.ops, l.guards + r.guards, l.always_obj or r.always_obj, forced=l.forced or r.forced)
+                if n.forced:
+                    # operands left their own carrier (where same-sign sums of two words below 64 bits always fit): the sum needs its own bound
+                    self.check_width(n, "combine", e)
                 self.check_mix(l, r, n, "combine", e)
                 return n
             raise NotATerm("binop %s" % src(e)[:50])
         if isinstance(e, ast.UnaryOp):
             return self.an(e.operand)
         raise NotATerm("%s" % src(e)[:50])
+
+    def known_signed(self, o):
+        for g in self.path_guards:
+            t, pol = g[0], g[1]
+            while isinstance(t, ast.UnaryOp) and isinstance(t.op, ast.Not):
+                t, pol = t.operand, not pol
+            if dotted(t) == o + ".signed" and pol:
+                return True
+        return False
+
+    def machine_cast(self, r, ty, node):
+        """raw codes forced into a fixed machine type: an unsigned word of n bits needs n + 1 bits of a signed type"""
+        bits = MACHINE_INTS[ty]
+        extra = 0 if (ty.startswith("np.u") or all(self.known_signed(o) for o in r.ops)) else 1
+        n = Node("code", r.W + extra, r.ops, r.guards, False, forced=True)
+        what = "%s: cast of the raw codes to %s keeps every value" % (self.k.name, ty)
+        for T, slack in self.bounds(n):
+            if nonneg(T + slack - n.W - (64 - bits), Facts()):
+                self.ck.ok(self.rule_w, self.k, what, node)
+                return n
+        self.ck.bad(self.rule_w, self.k, what, "%s:cast(%s)" % (self.public.name, ty), node,
+                    {"needs_bits": n.W.show(), "meaning": "raw codes can exceed the range of the machine type they are cast to"}, key_func=self.public.qualname)
+        return n
 
     def bounds(self, n):
         """[(T, slack)] : facts `T <= 63 + (1 - slack)` known on this path / for machine operands.
@@ -143,7 +202,7 @@ class Widths:
             except NotATerm:
                 continue
         for o in n.ops:
-            out.append((Term.var(o + ".n_word"), 1))      # a machine operand has n_word <= 63
+            out.append((Term.var(self.canon.get(o, o) + ".n_word"), 1))      # a machine operand has n_word <= 63
         return out
 
     def check_width(self, n, role, node):
@@ -157,9 +216,10 @@ class Widths:
             if nonneg(d, Facts()):
                 ck.ok(self.rule_w, self.k, what + " [bits %s <= %s + %d]" % (n.W.show(), T.show(), slack), node)
                 return
-        ck.bad(self.rule_w, self.k, what, "%s:%s" % (self.k.name, role), node,
+        have = sorted({"%s<=%d" % (T.show(), 64 - slack) for T, slack in self.bounds(n)})
+        ck.bad(self.rule_w, self.k, what, "%s:%s needs %s bits; known %s" % (self.public.name, role, n.W.show(), ", ".join(have)), node,
                {"needs_bits": n.W.show(), "guards": [(src(g[0])[:60], g[1]) for g in self.path_guards],
-                "meaning": "no guard bounds the exact result to 64 bits before it leaves int64: the intermediate silently wraps modulo 2^64"})
+                "meaning": "no guard bounds the exact result to 64 bits before it leaves int64: the intermediate silently wraps modulo 2^64"}, key_func=self.public.qualname)
 
     def check_mix(self, l, r, n, role, node):
         ck = self.ck
@@ -169,8 +229,11 @@ class Widths:
         if l.always_obj or r.always_obj:
             ck.ok(self.rule_p, self.k, what + " (an operand is always Python ints)", node)
             return
-        if l.ops == r.ops:
+        if l.ops == r.ops and not (l.forced != r.forced):
             ck.ok(self.rule_p, self.k, what + " (same operand)", node, nontrivial=False)
+            return
+        if l.forced and r.forced:
+            ck.ok(self.rule_p, self.k, what + " (both sides were cast to one machine type)", node)
             return
         # an object cast that is taken whenever signedness differs?  (such a path shows the operands as always_obj; on the
         # remaining paths the guard `x.signed != y.signed` is known false)
@@ -187,8 +250,64 @@ class Widths:
                 if isinstance(c, ast.Compare) and isinstance(c.ops[0], ast.NotEq) and {dotted(c.left), dotted(c.comparators[0])} == {"x.signed", "y.signed"}:
                     ck.ok(self.rule_p, self.k, what + " (object cast when signedness differs)", node)
                     return
-        ck.bad(self.rule_p, self.k, what, "%s:%s" % (self.k.name, role), node,
-               {"guards": [(src(g[0])[:60], g[1]) for g in self.path_guards], "meaning": "for x.signed != y.signed with both words below 64 bits the operation runs in float64 and is rounded to 53 bits"})
+        ck.bad(self.rule_p, self.k, what, "%s:%s" % (self.public.name, role), node,
+               {"guards": [(src(g[0])[:60], g[1]) for g in self.path_guards], "meaning": "for x.signed != y.signed with both words below 64 bits the operation runs in float64 and is rounded to 53 bits"}, key_func=self.public.qualname)
+
+
+class _PickArm(ast.NodeTransformer):
+    def __init__(self, target, arm):
+        self.target, self.arm = target, arm
+
+    def visit(self, node):
+        if node is self.target:
+            return self.arm
+        return super().visit(node)
+
+
+def _first_ifexp(e):
+    """first conditional expression evaluated as part of e itself (not inside a lambda body or a comprehension)"""
+    if isinstance(e, ast.IfExp):
+        return e
+    if isinstance(e, (ast.Lambda, ast.ListComp, ast.SetComp, ast.DictComp, ast.GeneratorExp)):
+        return None
+    for c in ast.iter_child_nodes(e):
+        r = _first_ifexp(c)
+        if r is not None:
+            return r
+    return None
+
+
+def split_cases(expr, limit=32):
+    """[(guards, expr')] : the conditional expressions of expr resolved one way or the other, with the tests as extra path guards"""
+    out, work = [], [([], expr)]
+    while work:
+        g, e = work.pop()
+        ie = _first_ifexp(e)
+        if ie is None or len(out) + len(work) > limit:
+            out.append((g, e))
+            continue
+        for arm, pol in ((ie.body, True), (ie.orelse, False)):
+            e2 = _clone_with(e, ie, arm)
+            work.append((g + [(ie.test, pol, ie.test, None)], e2))
+    return out
+
+
+def _clone_with(e, target, arm):
+    """copy of e with the node `target` replaced by `arm` (identity-based)"""
+    if e is target:
+        return arm
+    if not isinstance(e, ast.AST):
+        return e
+    new = type(e)()
+    for fld, val in ast.iter_fields(e):
+        if isinstance(val, list):
+            setattr(new, fld, [_clone_with(v, target, arm) for v in val])
+        else:
+            setattr(new, fld, _clone_with(val, target, arm))
+    for a in ("lineno", "col_offset", "end_lineno", "end_col_offset"):
+        if hasattr(e, a):
+            setattr(new, a, getattr(e, a))
+    return new
 
 
 def kernel_widths(ck, rule_w, rule_p, names=("add", "sub", "mul")):
@@ -207,11 +326,12 @@ def kernel_widths(ck, rule_w, rule_p, names=("add", "sub", "mul")):
                 if pf.end != "return" or pf.ret is None:
                     continue
                 n += 1
-                wd = Widths(ck, rule_w, rule_p, k, nf, ops, pf.guards)
-                try:
-                    wd.an(pf.ret)
-                except NotATerm as e:
-                    ck.unsure(rule_w, k, "kernel body is in the carrier/width vocabulary", pf.ret_stmt, str(e))
+                for extra, ret in split_cases(pf.ret):
+                    wd = Widths(ck, rule_w, rule_p, k, nf, ops, list(pf.guards) + extra, public=f)
+                    try:
+                        wd.an(ret)
+                    except NotATerm as e:
+                        ck.unsure(rule_w, k, "kernel body is in the carrier/width vocabulary", pf.ret_stmt, str(e))
             ck.saw(k)
     if n < len(names):
         raise AnalysisError("kernels of %s not found" % (names,))
